@@ -212,8 +212,7 @@ package klog
 //@ ensures implies(!ok, isnil(result0))
 
 // NewDateFromString: strings outside the date shape and non-Gregorian dates are rejected; an accepted string
-// denotes its year, month and day. (That mixed separators are rejected is decided through strings.Count and is
-// not expressed here.)
+// denotes its year, month and day.
 //@ func NewDateFromString
 //@ let m = matches(datePattern, yyyymmdd)
 //@ let y = num(group(datePattern, yyyymmdd, 1))
@@ -221,6 +220,9 @@ package klog
 //@ let dd = num(group(datePattern, yyyymmdd, 3))
 //@ ensures implies(!m || !validdate(y, mo, dd), result1 != nil && isnil(result0))
 //@ ensures implies(result1 == nil, typeis(result0, *date) && result0.(*date).year == y && result0.(*date).month == mo && result0.(*date).day == dd)
+// Completeness: every string of the date shape that names a Gregorian date of the years 0000..9999 is accepted, unless
+// its two separators differ (strings.Count(s, "-") == 1, over the abstract result of strings.Count); dashes are kept.
+//@ ensures implies(m && validdate(y, mo, dd) && strcount(yyyymmdd, "-") != 1, result1 == nil && result0.(*date).format.UseDashes == strcontains(yyyymmdd, "-"))
 
 //@ func NewDateFromGo
 //@ requires 0 <= gotime_year(t) && gotime_year(t) <= 9999
@@ -336,5 +338,9 @@ package klog
 //@ ensures implies(result == nil, len(r.entries) == old(len(r.entries)))
 // the entry list is updated in place and every entry keeps its summary
 //@ ensures same(r.entries, old(r.entries)) && forall(i, 0, len(r.entries), same(r.entries[i].summary, old(r.entries[i].summary)) && ekind(r.entries[i]))
+// success: the first open range (and only it) has become a range from its start to `end`; failure: nothing changed
+//@ ensures implies(result == nil, exists(k, 0, len(r.entries), typeis(old(r.entries[k].value), *openRange) && forall(j, 0, k, !typeis(old(r.entries[j].value), *openRange)) && typeis(r.entries[k].value, *timeRange) && r.entries[k].value.(*timeRange).end == end && r.entries[k].value.(*timeRange).start == old(r.entries[k].value.(*openRange).start) && forall(j, 0, len(r.entries), j == k || same(r.entries[j], old(r.entries[j])))))
+//@ ensures implies(result != nil, forall(j, 0, len(r.entries), same(r.entries[j], old(r.entries[j]))))
 //@ loop 1 invariant forall(i, 0, rangeindex+1, !typeis(r.entries[i].value, *openRange)) && forall(i, 0, len(r.entries), ekind(r.entries[i]))
+//@ loop 1 invariant forall(j, 0, len(r.entries), same(r.entries[j], old(r.entries[j])))
 //@ loop 1 invariant same(r.entries, old(r.entries)) && forall(i, 0, len(r.entries), same(r.entries[i].summary, old(r.entries[i].summary)))
